@@ -67,6 +67,17 @@ def _raise_if_mod(k, r):
 SHARED_NAN = float('nan')
 
 
+class _Sentinel(object):
+    pass
+
+
+SENTINELS = [_Sentinel(), _Sentinel(), _Sentinel()]
+import fractions as _fractions      # noqa: E402
+import decimal as _decimal          # noqa: E402
+MIXED_EQ = [[0, 0.0, False, _fractions.Fraction(0)], [1, 1.0, True, _fractions.Fraction(1)],
+            [2, 2.0, _fractions.Fraction(4, 2), _decimal.Decimal(2)]]
+
+
 def fn1(d):
     if d is None:
         return lambda i: i
@@ -126,6 +137,14 @@ def fn1(d):
         # ONE shared NaN object: identical but, by !=, different from itself (Python only; outside the model's value domain)
         k, r = d[1], d[2]
         return lambda x: SHARED_NAN if x % k == r else x
+    if n == 'obj_of':
+        # instances without __eq__: equal only to themselves (Python only; outside the model's value domain)
+        k = d[1]
+        return lambda x: SENTINELS[(x // k) % 3]
+    if n == 'mixed_eq':
+        # equal values of different types: 0 == 0.0 == False == Fraction(0), … (Python only)
+        k = d[1]
+        return lambda x: MIXED_EQ[(x // k) % 3][x % 4]
     if n == 'str_of':
         return lambda x: ''.join(list(str(x)))
     if n == 'big_of':
